@@ -534,7 +534,9 @@ func (x *rx) writer() {
 			}
 			x.c.Check("R2.restore-send", "writer/args:"+variant, call.Pos(), okArgs, "RESTORE must be sent as (key, pttl, value[, REPLACE]) of the element taken from keyChan; found `"+x.c.Src(call)+"`: the key is restored under another name / with another TTL or payload")
 			if !replace {
-				okPol, w := g.OnlyViaFact(rp, func(f cfgq.Fact) bool { return !f.Val && isRewrite(x.info, f.Expr, true) || f.Val && isRewrite(x.info, f.Expr, false) })
+				okPol, w := g.OnlyViaFact(rp, func(f cfgq.Fact) bool {
+					return !f.Val && isRewrite(x.info, f.Expr, true) || f.Val && isRewrite(x.info, f.Expr, false)
+				})
 				x.c.Check("R2.restore-send", "writer/replace-on-rewrite", call.Pos(), okPol, "with key_exists=rewrite the RESTORE must carry REPLACE; this send without REPLACE is reachable under rewrite, so an existing target key answers BUSYKEY and the run aborts instead of overwriting", w...)
 			}
 		}
@@ -648,95 +650,6 @@ func (x *rx) writer() {
 	}
 }
 
-// isRewrite: e is `KeyExists == "rewrite"` (eq=true) or `KeyExists != "rewrite"` (eq=false).
-func isRewrite(info *types.Info, e ast.Expr, eq bool) bool {
-	be, ok := ast.Unparen(e).(*ast.BinaryExpr)
-	if !ok || be.Op != token.EQL && be.Op != token.NEQ || (be.Op == token.EQL) != eq {
-		return false
-	}
-	for _, pr := range [][2]ast.Expr{{be.X, be.Y}, {be.Y, be.X}} {
-		if s, ok := core.StringConst(info, pr[1]); ok && s == "rewrite" && core.IsFieldNamed(info, pr[0], "Configuration", "KeyExists") {
-			return true
-		}
-	}
-	return false
-}
-
-// selectRules: uses (restore sends) are reached only after a select or an equality with the tracker; every select records; the tracker starts at 0 outside the loop.
-func (x *rx) selectRules(where string, g *cfgq.Graph, start cfgq.Point, head *cfg.Block, tracker types.Object, isTr, isDB func(ast.Expr) bool, isSelect func(ast.Node) bool, uses []cfgq.Point, loop *ast.RangeStmt) {
-	isAssign := func(n ast.Node) bool {
-		as, ok := n.(*ast.AssignStmt)
-		return ok && len(as.Lhs) == 1 && len(as.Rhs) == 1 && isTr(as.Lhs[0]) && isDB(as.Rhs[0])
-	}
-	equal := func(b *cfg.Block, s int) bool {
-		return c07.EdgeFact(g, b, s, func(f cfgq.Fact) bool {
-			be, ok := ast.Unparen(f.Expr).(*ast.BinaryExpr)
-			if !ok || be.Op != token.EQL && be.Op != token.NEQ {
-				return false
-			}
-			return (isTr(be.X) && isDB(be.Y) || isTr(be.Y) && isDB(be.X)) && (be.Op == token.EQL) == f.Val
-		})
-	}
-	for i, up := range uses {
-		w := g.Path(cfgq.Query{From: start, Avoid: isSelect, AvoidEdge: equal, Target: c07.IsNode(up.Node())})
-		x.check("R3.select", fmt.Sprintf("%s/reach#%d", where, i+1), up.Node().Pos(), w, "the key is written without `select` having been sent and without the tracker having been found equal to the wanted db: it lands in whatever database the connection was left on")
-	}
-	sels := g.Points(isSelect)
-	for i, sp := range sels {
-		okArg := false
-		for _, call := range cfgq.ExecCalls(sp.Node()) {
-			if _, cm, _ := cmd(x.info, call); cm == "SELECT" && len(call.Args) == 2 && isDB(call.Args[1]) {
-				okArg = true
-			}
-		}
-		x.c.Check("R3.select", fmt.Sprintf("%s/select-arg#%d", where, i+1), sp.Node().Pos(), okArg, "`select` must be sent with the wanted database of this key")
-		before := g.Path(cfgq.Query{From: start, Avoid: isAssign, Target: c07.IsNode(sp.Node())})
-		after := false
-		if head != nil {
-			after = c07.ReachBlock(g, sp, true, isAssign, head)
-		} else {
-			after = g.Path(cfgq.Query{From: sp, After: true, Avoid: isAssign, TargetExit: c07.NormalExit}) != nil
-		}
-		x.c.Check("R3.select", fmt.Sprintf("%s/select-records#%d", where, i+1), sp.Node().Pos(), !(before != nil && after),
-			"`select` is sent without recording the database in the tracker: after keys of db 1 a key of db 0 finds tracker == 0, sends no select and lands in db 1", before...)
-	}
-	if len(sels) == 0 {
-		x.c.Failf("R3.select", where+"/select-arg", start.B.Stmt.Pos(), "no `select` is ever sent: every key lands in database 0")
-	}
-	if loop != nil {
-		v, isC := initOf(x.info, x.fn[where].Decl.Body, tracker)
-		outside := !(loop.Body.Pos() <= tracker.Pos() && tracker.Pos() < loop.Body.End())
-		x.c.Check("R3.select", where+"/tracker-init", tracker.Pos(), isC && v == 0 && outside, "the tracker must start at 0 (database of a fresh connection) and live across iterations")
-	}
-}
-
-func initOf(info *types.Info, body ast.Node, v types.Object) (int64, bool) {
-	var val int64
-	found := false
-	core.InspectAll(body, func(n ast.Node) bool {
-		switch s := n.(type) {
-		case *ast.ValueSpec:
-			for i, id := range s.Names {
-				if info.Defs[id] == v {
-					if len(s.Values) == 0 {
-						val, found = 0, true
-					} else if i < len(s.Values) {
-						val, found = core.IntConst(info, s.Values[i])
-					}
-				}
-			}
-		case *ast.AssignStmt:
-			for i, l := range s.Lhs {
-				if id, ok := l.(*ast.Ident); ok && info.Defs[id] == v && len(s.Lhs) == len(s.Rhs) {
-					val, found = core.IntConst(info, s.Rhs[i])
-				}
-			}
-		}
-		return true
-	})
-	return val, found
-}
-
 func (x *rx) writeSend() {
 	fn := x.fn["writeSend"]
 	g := x.g("writeSend")
@@ -812,586 +725,3 @@ func (x *rx) receiver() {
 }
 
 // ---- RestoreBigkey
-
-func (x *rx) bigkey() {
-	fn := x.c.Func(pkgCommon, "", "RestoreBigkey")
-	if fn == nil {
-		return
-	}
-	info := fn.Pkg.TypesInfo
-	y := &rx{c: x.c, info: info, fn: map[string]*core.Fn{"RestoreBigkey": fn}}
-	g := cfgq.Of(x.c.Program, fn)
-	var ps []types.Object
-	for _, f := range fn.Decl.Type.Params.List {
-		for _, n := range f.Names {
-			ps = append(ps, info.Defs[n])
-		}
-	}
-	if len(ps) != 6 {
-		x.c.Undecidedf("R3.select", "RestoreBigkey", fn.Decl.Pos(), "expected parameters (client, key, value, pttl, db, preDb)")
-		return
-	}
-	key, value, pttl, db, pre := ps[1], ps[2], ps[3], ps[4], ps[5]
-	is := func(o types.Object) func(ast.Expr) bool {
-		return func(e ast.Expr) bool { return core.ObjOf(info, c07.Strip(info, e)) == o }
-	}
-	isPre := func(e ast.Expr) bool {
-		s, ok := ast.Unparen(e).(*ast.StarExpr)
-		return ok && core.ObjOf(info, s.X) == pre
-	}
-	inner := x.c.LookupFunc(pkgCommon, "", "restoreBigRdbEntry")
-	if inner == nil {
-		x.c.Undecidedf("anchor", pkgCommon+".restoreBigRdbEntry", token.NoPos, "anchor missing")
-		return
-	}
-	uses := g.Points(y.callNode(inner.Obj))
-	y.selectRules("RestoreBigkey", g, g.Entry(), nil, pre, isPre, is(db), y.cmdNode("Do", "SELECT"), uses, nil)
-	// entry literal carries key and value
-	okLit := false
-	core.Inspect(fn.Decl.Body, func(n ast.Node) bool {
-		cl, ok := n.(*ast.CompositeLit)
-		if !ok || core.NamedTypeName(info.TypeOf(cl)) != "BinEntry" {
-			return true
-		}
-		got := map[string]bool{}
-		for _, el := range cl.Elts {
-			if kv, ok := el.(*ast.KeyValueExpr); ok {
-				if call, ok := ast.Unparen(kv.Value).(*ast.CallExpr); ok && len(call.Args) == 1 {
-					name := kv.Key.(*ast.Ident).Name
-					got[name] = name == "Key" && is(key)(call.Args[0]) || name == "Value" && is(value)(call.Args[0])
-				}
-			}
-		}
-		okLit = got["Key"] && got["Value"]
-		return true
-	})
-	x.c.Check("R2.bigkey", "RestoreBigkey/entry", fn.Decl.Pos(), okLit, "the entry handed to restoreBigRdbEntry must carry this key's name as Key and its DUMP payload as Value")
-	// ttl re-applied
-	isExpire := y.cmdNode("Do", "PEXPIRE")
-	for _, up := range uses {
-		w := g.Path(cfgq.Query{From: up, After: true, Avoid: isExpire, TargetExit: c07.NormalExit, AvoidEdge: func(b *cfg.Block, s int) bool {
-			return c07.EdgeFact(g, b, s, func(f cfgq.Fact) bool {
-				be, ok := ast.Unparen(f.Expr).(*ast.BinaryExpr)
-				if !ok {
-					return false
-				}
-				v, isC := core.IntConst(info, be.Y)
-				return is(pttl)(be.X) && isC && v == 0 && (be.Op == token.GTR && !f.Val || be.Op == token.LEQ && f.Val)
-			})
-		}})
-		x.check("R3.ttl", "RestoreBigkey/pexpire", up.Node().Pos(), w, "a big key with remaining time-to-live (pttl > 0) must get PEXPIRE after the element-wise restore: otherwise it becomes persistent on the target")
-	}
-	for _, p := range g.Points(isExpire) {
-		for _, call := range cfgq.ExecCalls(p.Node()) {
-			if _, cm, _ := cmd(info, call); cm == "PEXPIRE" {
-				x.c.Check("R3.ttl", "RestoreBigkey/pexpire-args", call.Pos(), len(call.Args) == 3 && is(key)(call.Args[1]) && is(pttl)(call.Args[2]), "PEXPIRE must name this key and its remaining pttl")
-			}
-		}
-	}
-	for _, site := range []struct{ name string; pred func(ast.Node) bool }{{"select", y.cmdNode("Do", "SELECT")}, {"restoreBigRdbEntry", y.callNode(inner.Obj)}, {"pexpire", isExpire}} {
-		for _, p := range g.Points(site.pred) {
-			for _, call := range cfgq.ExecCalls(p.Node()) {
-				if _, cm, _ := cmd(info, call); cm == "SELECT" || cm == "PEXPIRE" || core.CalleeFunc(info, call) == inner.Obj {
-					c07.ErrCheck(x.c, g, info, fn.Decl.Body, call, c07.ErrSpec{Rule: "R6.error", Key: "RestoreBigkey/" + site.name, Consequence: "a failed step of the big-key restore goes unnoticed and the key is left partial / in the wrong db / without TTL"})
-				}
-			}
-		}
-	}
-}
-
-// ---- R4/R5 doFetch
-
-func (x *rx) doFetch() {
-	fn := x.fn["doFetch"]
-	g := x.g("doFetch")
-	body := fn.Decl.Body
-	scanF := x.scannerMethod("ScanKey")
-	endF := x.scannerMethod("EndNode")
-	if scanF == nil || endF == nil {
-		x.c.Undecidedf("R5.loop", "doFetch", fn.Decl.Pos(), "scanner.Scanner interface methods not resolved")
-		return
-	}
-	isScan, isEnd := x.callNode(scanF), x.callNode(endF)
-	scans := g.Points(isScan)
-	var loop *ast.ForStmt
-	if len(scans) == 1 {
-		for _, a := range core.PathTo(body, scans[0].Node()) {
-			if f, ok := a.(*ast.ForStmt); ok && loop == nil {
-				loop = f
-			}
-		}
-	}
-	if loop == nil || loop.Cond != nil {
-		x.c.Undecidedf("R5.loop", "doFetch", fn.Decl.Pos(), "expected one ScanKey call inside an unconditional for loop")
-		return
-	}
-	_, lbody := c07.RangeBlocks(g, loop)
-	done := blockOf(g, cfg.KindForDone, loop)
-	ended := func(b *cfg.Block, s int) bool {
-		return c07.EdgeFact(g, b, s, func(f cfgq.Fact) bool {
-			call, ok := ast.Unparen(f.Expr).(*ast.CallExpr)
-			return ok && f.Val && core.CalleeFunc(x.info, call) == endF
-		})
-	}
-	leak := false
-	w := g.Path(cfgq.Query{From: cfgq.Point{B: lbody}, AvoidEdge: func(b *cfg.Block, s int) bool {
-		if ended(b, s) {
-			return true
-		}
-		if b.Succs[s] == done {
-			leak = true
-			return true
-		}
-		return false
-	}, TargetExit: func(b *cfg.Block, k cfgq.ExitKind) bool {
-		if !c07.NormalExit(b, k) {
-			return false
-		}
-		ret, _ := b.Nodes[len(b.Nodes)-1].(*ast.ReturnStmt)
-		return ret == nil || cfgq.ClassifyReturn(x.info, body, ret) != cfgq.RetErr
-	}})
-	if leak && w == nil {
-		w = []string{"break out of the scan loop without EndNode() being true"}
-	}
-	x.check("R5.loop", "doFetch/exit-only-on-EndNode", loop.Pos(), w, "the scan loop of a database may end successfully only when the scanner reports its final cursor: leaving earlier silently skips the remaining pages of the keyspace")
-	out, seen := false, false
-	for _, b := range g.CFG.Blocks {
-		for s := range b.Succs {
-			seen = seen || b.Live && ended(b, s)
-			if b.Live && ended(b, s) && (b.Succs[s] == done || g.Path(cfgq.Query{From: cfgq.Point{B: b.Succs[s]}, Avoid: isScan, TargetExit: c07.NormalExit}) != nil) {
-				out = true
-			}
-		}
-	}
-	x.verdict3("R5.loop", "doFetch/ends-on-EndNode", loop.Pos(), out, seen || len(g.Points(isEnd)) == 0, "when the scanner reports the final cursor doFetch must leave the loop: otherwise the database is scanned again from cursor 0 forever (duplicates, no termination)")
-	w = g.Path(cfgq.Query{From: cfgq.Point{B: lbody}, Avoid: isScan, Target: isEnd})
-	x.check("R5.loop", "doFetch/scan-each-round", loop.Pos(), w, "every round must call ScanKey before asking EndNode(): EndNode() on the initial cursor 0 is true, so the database would be skipped without a single SCAN")
-
-	// source select tracking
-	prev := func(e ast.Expr) bool { return x.field(e) == "previousDb" }
-	var dbParam types.Object
-	if ps := fn.Decl.Type.Params.List; len(ps) == 1 && len(ps[0].Names) == 1 {
-		dbParam = x.info.Defs[ps[0].Names[0]]
-	}
-	isDB := func(e ast.Expr) bool { return dbParam != nil && core.ObjOf(x.info, c07.Strip(x.info, e)) == dbParam }
-	x.selectRules("doFetch", g, g.Entry(), nil, x.fieldObj("previousDb"), prev, isDB, x.cmdNode("Do", "SELECT"), scans, nil)
-
-	// R4: pipelines
-	dumpS, pttlS := g.Points(x.cmdNode("Send", "DUMP")), g.Points(x.cmdNode("Send", "PTTL"))
-	var keyChanSend *ast.SendStmt
-	core.Inspect(body, func(n ast.Node) bool {
-		if s, ok := n.(*ast.SendStmt); ok && x.field(s.Chan) == "keyChan" {
-			keyChanSend = s
-		}
-		return true
-	})
-	if len(dumpS) != 1 || len(pttlS) != 1 || keyChanSend == nil {
-		x.c.Undecidedf("R4.pipeline", "doFetch", fn.Decl.Pos(), "expected one Send(\"DUMP\"), one Send(\"PTTL\") and one send on keyChan; found %d/%d", len(dumpS), len(pttlS))
-		return
-	}
-	loopOf := func(n ast.Node) *ast.RangeStmt {
-		var r *ast.RangeStmt
-		for _, a := range core.PathTo(body, n) {
-			if rs, ok := a.(*ast.RangeStmt); ok {
-				r = rs
-			}
-		}
-		return r
-	}
-	ld, lp, lk := loopOf(dumpS[0].Node()), loopOf(pttlS[0].Node()), loopOf(keyChanSend)
-	if ld == nil || lp == nil || lk == nil {
-		x.c.Undecidedf("R4.pipeline", "doFetch", fn.Decl.Pos(), "DUMP/PTTL/keyChan sends are not each inside a range loop")
-		return
-	}
-	keys := core.ObjOf(x.info, lk.X)
-	x.c.Check("R4.align", "doFetch/same-slice", lk.Pos(), keys != nil && core.ObjOf(x.info, ld.X) == keys && core.ObjOf(x.info, lp.X) == keys,
-		"the DUMP pipeline, the PTTL pipeline and the loop that builds the KeyNodes must iterate the same key slice: otherwise reply i of one pipeline belongs to another key than keys[i] and keys receive foreign values/TTLs")
-	argIsVal := func(p cfgq.Point, rs *ast.RangeStmt, command string) bool {
-		for _, call := range cfgq.ExecCalls(p.Node()) {
-			if _, cm, recv := cmd(x.info, call); cm == command {
-				return len(call.Args) == 2 && rs.Value != nil && core.ObjOf(x.info, call.Args[1]) == core.ObjOf(x.info, rs.Value) && x.field(recv) == "sourceClient"
-			}
-		}
-		return false
-	}
-	x.c.Check("R4.pipeline", "doFetch/dump-per-key", dumpS[0].Node().Pos(), argIsVal(dumpS[0], ld, "DUMP"), "exactly `DUMP <key>` is pipelined to the source for every key of the page")
-	x.c.Check("R4.pipeline", "doFetch/pttl-per-key", pttlS[0].Node().Pos(), argIsVal(pttlS[0], lp, "PTTL"), "exactly `PTTL <key>` is pipelined to the source for every key of the page")
-	isDo := func(n ast.Node) bool {
-		for _, call := range cfgq.ExecCalls(n) {
-			if m, _, _ := cmd(x.info, call); m == "Do" {
-				return true
-			}
-		}
-		return false
-	}
-	w = g.Path(cfgq.Query{From: dumpS[0], After: true, Avoid: isDo, Target: x.cmdNode("Send", "PTTL")})
-	if w == nil {
-		w = g.Path(cfgq.Query{From: pttlS[0], After: true, Avoid: isDo, Target: x.cmdNode("Send", "DUMP")})
-	}
-	x.check("R4.pipeline", "doFetch/collect-between", ld.Pos(), w, "the replies of one pipeline must be collected (Do(\"\")) before the other pipeline is sent: otherwise DUMP and PTTL replies are mixed in one reply array and values/TTLs are attributed to the wrong keys")
-	// the KeyNode literal
-	cl, _ := ast.Unparen(keyChanSend.Value).(*ast.UnaryExpr)
-	var lit *ast.CompositeLit
-	if cl != nil {
-		lit, _ = ast.Unparen(cl.X).(*ast.CompositeLit)
-	}
-	if lit == nil || core.NamedTypeName(x.info.TypeOf(lit)) != "KeyNode" {
-		x.c.Undecidedf("R4.align", "doFetch/keynode", keyChanSend.Pos(), "the value sent on keyChan is not a &KeyNode{...} literal")
-		return
-	}
-	fields := map[string]ast.Expr{}
-	st := x.info.TypeOf(lit).Underlying().(*types.Struct)
-	for i, el := range lit.Elts {
-		if kv, ok := el.(*ast.KeyValueExpr); ok {
-			fields[kv.Key.(*ast.Ident).Name] = kv.Value
-		} else if i < st.NumFields() {
-			fields[st.Field(i).Name()] = el
-		}
-	}
-	idx := core.ObjOf(x.info, lk.Key)
-	// which slice came from which pipeline: reaching Do of the converter's argument
-	source := func(e ast.Expr, conv string) (string, bool) {
-		ix, ok := ast.Unparen(e).(*ast.IndexExpr)
-		if !ok || idx == nil || core.ObjOf(x.info, ix.Index) != idx {
-			return "", false
-		}
-		slice := core.ObjOf(x.info, ix.X)
-		for _, p := range g.Points(func(n ast.Node) bool { as, _ := c07.AssignsTo(x.info, n, slice); return as != nil }) {
-			_, rhs := c07.AssignsTo(x.info, p.Node(), slice)
-			if rhs != nil {
-				continue
-			}
-			as := p.Node().(*ast.AssignStmt)
-			call, ok := as.Rhs[0].(*ast.CallExpr)
-			if !ok {
-				continue
-			}
-			if f := core.CalleeFunc(x.info, call); f == nil || f.Name() != conv || len(call.Args) != 2 {
-				continue
-			}
-			reply := core.ObjOf(x.info, call.Args[0])
-			isDef := func(n ast.Node) bool { a, _ := c07.AssignsTo(x.info, n, reply); return a != nil }
-			for _, dp := range g.Points(func(n ast.Node) bool { return isDef(n) && isDo(n) }) {
-				if g.Path(cfgq.Query{From: dp, After: true, Avoid: isDef, Target: c07.IsNode(p.Node())}) == nil {
-					continue
-				}
-				fromDump := g.Path(cfgq.Query{From: dumpS[0], After: true, Avoid: isDo, Target: c07.IsNode(dp.Node())}) != nil
-				fromPttl := g.Path(cfgq.Query{From: pttlS[0], After: true, Avoid: isDo, Target: c07.IsNode(dp.Node())}) != nil
-				switch {
-				case fromDump && !fromPttl:
-					return "DUMP", true
-				case fromPttl && !fromDump:
-					return "PTTL", true
-				}
-			}
-		}
-		return "?", true
-	}
-	x.c.Check("R4.align", "doFetch/keynode-key", lit.Pos(), fields["key"] != nil && lk.Value != nil && core.ObjOf(x.info, fields["key"]) == core.ObjOf(x.info, lk.Value), "KeyNode.key must be the key of this iteration")
-	for _, f := range []struct{ field, conv, pipe string }{{"value", "Strings", "DUMP"}, {"pttl", "Int64s", "PTTL"}} {
-		src, sameIdx := "", false
-		if fields[f.field] != nil {
-			src, sameIdx = source(fields[f.field], f.conv)
-		}
-		switch {
-		case !sameIdx:
-			x.c.Failf("R4.align", "doFetch/keynode-"+f.field, lit.Pos(), "KeyNode.%s must be element [i] of the %s replies with i the index of this key in the key slice; found `%s`: keys receive the value/TTL of another key", f.field, f.pipe, x.c.Src(fields[f.field]))
-		case src == "?":
-			x.c.Undecidedf("R4.align", "doFetch/keynode-"+f.field, lit.Pos(), "cannot trace `%s` back to the Do(\"\") that collected the %s pipeline", x.c.Src(fields[f.field]), f.pipe)
-		default:
-			x.c.Check("R4.align", "doFetch/keynode-"+f.field, lit.Pos(), src == f.pipe, fmt.Sprintf("KeyNode.%s is taken from the replies of the %s pipeline, it must come from %s", f.field, src, f.pipe))
-		}
-	}
-	x.c.Check("R3.db", "doFetch/keynode-db", lit.Pos(), fields["db"] != nil && isDB(fields["db"]), "KeyNode.db must be the database being fetched")
-	// R4.keys: the slice is not modified between the pipelines; filter
-	isKeysAssign := func(n ast.Node) bool { a, _ := c07.AssignsTo(x.info, n, keys); return a != nil }
-	w = g.Path(cfgq.Query{From: dumpS[0], After: true, Avoid: isScan, Target: isKeysAssign})
-	x.check("R4.keys", "doFetch/stable-between-pipelines", ld.Pos(), w, "the key slice is modified after DUMP was pipelined for it: indexes of dumps/pttls no longer refer to the same keys")
-	filterF := x.c.LookupFunc("redis-shake/filter", "", "FilterKey")
-	if filterF == nil {
-		x.c.Undecidedf("R4.keys", "doFetch/filter", fn.Decl.Pos(), "filter.FilterKey not resolved")
-		return
-	}
-	var fl *ast.RangeStmt
-	var raw types.Object
-	for _, call := range x.calls(body, func(call *ast.CallExpr) bool { return core.CalleeFunc(x.info, call) == filterF.Obj }) {
-		fl = loopOf(call)
-	}
-	if as, ok := scans[0].Node().(*ast.AssignStmt); ok {
-		raw = core.ObjOf(x.info, as.Lhs[0])
-	}
-	if fl == nil || raw == nil || core.ObjOf(x.info, fl.X) != raw {
-		x.c.Undecidedf("R4.keys", "doFetch/filter", fn.Decl.Pos(), "no loop over the scanned keys applying FilterKey")
-		return
-	}
-	fh, fb := c07.RangeBlocks(g, fl)
-	kv := core.ObjOf(x.info, fl.Value)
-	isKeep := func(n ast.Node) bool {
-		b := pat.Stmt("_k = append(_k, _v)").Match(x.info, n, nil)
-		return b != nil && core.ObjOf(x.info, b["_k"].(ast.Expr)) == keys && core.ObjOf(x.info, b["_v"].(ast.Expr)) == kv
-	}
-	filtered := func(val bool) func(*cfg.Block, int) bool {
-		return func(b *cfg.Block, s int) bool {
-			return c07.EdgeFact(g, b, s, func(f cfgq.Fact) bool {
-				e := f.Expr
-				v := f.Val
-				if be, ok := ast.Unparen(e).(*ast.BinaryExpr); ok && (be.Op == token.EQL || be.Op == token.NEQ) {
-					if tv := x.info.Types[be.Y]; tv.Value != nil {
-						e, v = be.X, ((tv.Value.String() == "true") == (be.Op == token.EQL)) == f.Val
-					}
-				}
-				call, ok := ast.Unparen(e).(*ast.CallExpr)
-				return ok && core.CalleeFunc(x.info, call) == filterF.Obj && len(call.Args) == 1 && core.ObjOf(x.info, call.Args[0]) == kv && v == val
-			})
-		}
-	}
-	x.c.Check("R4.keys", "doFetch/kept-keys-appended", fl.Pos(), !c07.ReachBlock2(g, cfgq.Point{B: fb}, isKeep, filtered(true), fh),
-		"a scanned key that passes the key filter must be appended to the key slice: otherwise it is never dumped and never copied")
-	var wk []string
-	for _, p := range g.Points(isKeep) {
-		if wk == nil {
-			wk = g.Path(cfgq.Query{From: cfgq.Point{B: fb}, AvoidEdge: filtered(false), Target: c07.IsNode(p.Node())})
-		}
-	}
-	x.check("R4.keys", "doFetch/filtered-keys-dropped", fl.Pos(), wk, "a key rejected by the key filter is still appended to the key slice and copied")
-}
-
-func (x *rx) scannerMethod(name string) *types.Func {
-	pk := x.c.Pkg(pkgScanner)
-	if pk == nil {
-		return nil
-	}
-	tn, _ := pk.Types.Scope().Lookup("Scanner").(*types.TypeName)
-	if tn == nil {
-		return nil
-	}
-	it, _ := tn.Type().Underlying().(*types.Interface)
-	for i := 0; it != nil && i < it.NumMethods(); i++ {
-		if it.Method(i).Name() == name {
-			return it.Method(i)
-		}
-	}
-	return nil
-}
-
-func (x *rx) scanners() {
-	c := x.c
-	// NormalScanner
-	sk, en := c.Func(pkgScanner, "NormalScanner", "ScanKey"), c.Func(pkgScanner, "NormalScanner", "EndNode")
-	if sk != nil && en != nil {
-		info := sk.Pkg.TypesInfo
-		isCursor := func(e ast.Expr) bool { return core.IsFieldNamed(info, c07.Strip(info, e), "NormalScanner", "cursor") }
-		n := 0
-		for _, call := range core.Calls(sk.Decl.Body, info, func(*ast.CallExpr, types.Object) bool { return true }) {
-			if _, cm, _ := cmd(info, call); cm == "SCAN" {
-				n++
-				c.Check("R5.scanner", "NormalScanner/scan-from-cursor", call.Pos(), len(call.Args) >= 2 && isCursor(call.Args[1]),
-					"SCAN must be issued with the cursor returned by the previous reply; found `"+c.Src(call)+"`: the scan restarts or jumps, keys are missed or the loop never ends")
-			}
-			if f := core.CalleeFunc(info, call); f != nil && f.Name() == "Scan" && strings.HasSuffix(f.Pkg().Path(), "redigo/redis") {
-				n++
-				okCur, okKeys := false, false
-				if len(call.Args) == 3 {
-					if u, ok := ast.Unparen(call.Args[1]).(*ast.UnaryExpr); ok && u.Op == token.AND && isCursor(u.X) {
-						okCur = true
-					}
-					if u, ok := ast.Unparen(call.Args[2]).(*ast.UnaryExpr); ok && u.Op == token.AND {
-						kobj := core.ObjOf(info, u.X)
-						core.Inspect(sk.Decl.Body, func(m ast.Node) bool {
-							if r, ok := m.(*ast.ReturnStmt); ok && len(r.Results) == 2 && core.IsNil(info, r.Results[1]) && core.ObjOf(info, r.Results[0]) == kobj {
-								okKeys = true
-							}
-							return true
-						})
-					}
-				}
-				c.Check("R5.scanner", "NormalScanner/reply-to-cursor", call.Pos(), okCur, "the first element of the SCAN reply must be stored as the next cursor")
-				c.Check("R5.scanner", "NormalScanner/reply-to-keys", call.Pos(), okKeys, "the second element of the SCAN reply (the page of keys) must be what ScanKey returns")
-			}
-		}
-		if n < 2 {
-			c.Undecidedf("R5.scanner", "NormalScanner/shape", sk.Decl.Pos(), "SCAN call / redis.Scan not found")
-		}
-		okEnd := false
-		core.Inspect(en.Decl.Body, func(m ast.Node) bool {
-			if r, ok := m.(*ast.ReturnStmt); ok && len(r.Results) == 1 {
-				eq, is := intCmp(info, cfgq.Fact{Expr: r.Results[0], Val: true}, isCursor, 0)
-				okEnd = is && eq
-			}
-			return true
-		})
-		c.Check("R5.scanner", "NormalScanner/end-on-zero", en.Decl.Pos(), okEnd, "EndNode must report the end exactly when the returned cursor is 0 (Redis SCAN contract)")
-	}
-	// KeyFileScanner
-	ks, ke := c.Func(pkgScanner, "KeyFileScanner", "ScanKey"), c.Func(pkgScanner, "KeyFileScanner", "EndNode")
-	if ks != nil && ke != nil {
-		info := ks.Pkg.TypesInfo
-		isCnt := func(e ast.Expr) bool { return core.IsFieldNamed(info, c07.Strip(info, e), "KeyFileScanner", "cnt") }
-		isPage := func(e ast.Expr) bool { return core.IsFieldNamed(info, c07.Strip(info, e), "Configuration", "ScanKeyNumber") }
-		n1, b := pat.Stmt("_k.cnt = len(_keys)").Find(info, ks.Decl.Body, nil)
-		okRet := false
-		if n1 != nil {
-			core.Inspect(ks.Decl.Body, func(m ast.Node) bool {
-				if r, ok := m.(*ast.ReturnStmt); ok && len(r.Results) == 2 && pat.Same(info, r.Results[0], b["_keys"]) {
-					okRet = true
-				}
-				return true
-			})
-		}
-		c.Check("R5.scanner", "KeyFileScanner/count-page", ks.Decl.Pos(), okRet, "ScanKey must record the size of the page it returns (cnt = len(keys)) for EndNode")
-		verdict, shape := false, false
-		core.Inspect(ke.Decl.Body, func(m ast.Node) bool {
-			if r, ok := m.(*ast.ReturnStmt); ok && len(r.Results) == 1 {
-				if be, ok := ast.Unparen(r.Results[0]).(*ast.BinaryExpr); ok {
-					a, bb, op := be.X, be.Y, be.Op
-					if isPage(a) {
-						a, bb = bb, a
-						op = map[token.Token]token.Token{token.LSS: token.GTR, token.GTR: token.LSS, token.NEQ: token.NEQ, token.EQL: token.EQL, token.LEQ: token.GEQ, token.GEQ: token.LEQ}[op]
-					}
-					if isCnt(a) && isPage(bb) {
-						shape, verdict = true, op == token.NEQ || op == token.LSS
-					}
-				}
-			}
-			return true
-		})
-		if !shape {
-			c.Undecidedf("R5.scanner", "KeyFileScanner/end-on-short-page", ke.Decl.Pos(), "EndNode is not a comparison of cnt with scan.key_number")
-		} else {
-			c.Check("R5.scanner", "KeyFileScanner/end-on-short-page", ke.Decl.Pos(), verdict, "EndNode must be true exactly when the last page was short (cnt != scan.key_number): with the comparison inverted the file scan stops after the first full page or never stops")
-		}
-	}
-}
-
-// dbs: every unfiltered database is fetched (fetcher) and listed (getSourceDbList).
-func (x *rx) dbs() {
-	g := x.g("fetcher")
-	rs := x.rangeOver("fetcher", func(e ast.Expr) bool { return x.field(e) == "dbList" })
-	filterDB := x.c.LookupFunc("redis-shake/filter", "", "FilterDB")
-	if rs == nil || filterDB == nil {
-		x.c.Undecidedf("R5.dbs", "fetcher", x.fn["fetcher"].Decl.Pos(), "no range over dbList / FilterDB not resolved")
-		return
-	}
-	dbv := core.ObjOf(x.info, rs.Value)
-	head, body := c07.RangeBlocks(g, rs)
-	isFetch := x.callNode(x.fn["doFetch"].Obj)
-	filtered := func(b *cfg.Block, s int) bool {
-		return c07.EdgeFact(g, b, s, func(f cfgq.Fact) bool {
-			call, ok := ast.Unparen(f.Expr).(*ast.CallExpr)
-			return ok && f.Val && core.CalleeFunc(x.info, call) == filterDB.Obj && len(call.Args) == 1 && core.ObjOf(x.info, c07.Strip(x.info, call.Args[0])) == dbv
-		})
-	}
-	x.c.Check("R5.dbs", "fetcher/every-db", rs.Pos(), !c07.ReachBlock2(g, cfgq.Point{B: body}, isFetch, filtered, head),
-		"every database of dbList that passes the db filter must be fetched: here an iteration reaches the next database without doFetch, so that database's keys are never copied")
-	okArg := false
-	for _, p := range g.Points(isFetch) {
-		for _, call := range cfgq.ExecCalls(p.Node()) {
-			if core.CalleeFunc(x.info, call) == x.fn["doFetch"].Obj {
-				okArg = len(call.Args) == 1 && core.ObjOf(x.info, c07.Strip(x.info, call.Args[0])) == dbv
-			}
-		}
-	}
-	x.c.Check("R5.dbs", "fetcher/db-arg", rs.Pos(), okArg, "doFetch must be given the database of this iteration")
-	// getSourceDbList: for db, number := range mp { if number > 0 && !FilterDB(db) { list = append(list, db) } }
-	fn := x.fn["getSourceDbList"]
-	gl := x.g("getSourceDbList")
-	var lr *ast.RangeStmt
-	core.Inspect(fn.Decl.Body, func(n ast.Node) bool {
-		if r, ok := n.(*ast.RangeStmt); ok {
-			if _, isMap := x.info.TypeOf(r.X).Underlying().(*types.Map); isMap {
-				lr = r
-			}
-		}
-		return true
-	})
-	if lr == nil || lr.Key == nil || lr.Value == nil {
-		x.c.Undecidedf("R5.dbs", "getSourceDbList/lists-every-db", fn.Decl.Pos(), "no `for db, number := range keyspace` loop")
-		return
-	}
-	k, v := core.ObjOf(x.info, lr.Key), core.ObjOf(x.info, lr.Value)
-	lh, lb := c07.RangeBlocks(gl, lr)
-	isApp := func(n ast.Node) bool {
-		b := pat.Stmt("_l = append(_l, _d)").Match(x.info, n, nil)
-		return b != nil && core.ObjOf(x.info, b["_d"].(ast.Expr)) == k
-	}
-	skipOK := func(b *cfg.Block, s int) bool { // false edge of a condition all of whose conjuncts are `number > 0` / `!FilterDB(db)`
-		cond := cfgq.CondOf(b)
-		if cond == nil || s != 1 {
-			return false
-		}
-		for _, f := range cfgq.Facts(cond, true) {
-			okAtom := false
-			if call, ok := ast.Unparen(f.Expr).(*ast.CallExpr); ok && !f.Val && core.CalleeFunc(x.info, call) == filterDB.Obj && len(call.Args) == 1 && core.ObjOf(x.info, c07.Strip(x.info, call.Args[0])) == k {
-				okAtom = true
-			}
-			if be, ok := ast.Unparen(f.Expr).(*ast.BinaryExpr); ok && f.Val && be.Op == token.GTR && core.ObjOf(x.info, be.X) == v {
-				if z, isC := core.IntConst(x.info, be.Y); isC && z == 0 {
-					okAtom = true
-				}
-			}
-			if !okAtom {
-				return false
-			}
-		}
-		return true
-	}
-	x.c.Check("R5.dbs", "getSourceDbList/lists-every-db", lr.Pos(), !c07.ReachBlock2(gl, cfgq.Point{B: lb}, isApp, skipOK, lh),
-		"every non-empty, unfiltered database reported by `info keyspace` must be put into the db list: a database left out is never scanned")
-}
-
-// ---- R6
-
-func (x *rx) errors() {
-	type site struct {
-		m     string
-		pred  func(*ast.CallExpr) bool
-		name  string
-		retOK bool
-	}
-	scanF := x.scannerMethod("ScanKey")
-	redigo := func(method string) func(*ast.CallExpr) bool {
-		return func(call *ast.CallExpr) bool {
-			f := core.CalleeFunc(x.info, call)
-			return f != nil && f.Name() == method && f.Pkg() != nil && strings.HasSuffix(f.Pkg().Path(), "redigo/redis") && f.Type().(*types.Signature).Recv() != nil
-		}
-	}
-	callee := func(f *types.Func) func(*ast.CallExpr) bool {
-		return func(call *ast.CallExpr) bool { return core.CalleeFunc(x.info, call) == f }
-	}
-	sites := []site{
-		{"doFetch", callee(scanF), "ScanKey", true}, {"doFetch", redigo("Do"), "Do", true},
-		{"fetcher", callee(x.fn["doFetch"].Obj), "doFetch", false},
-		{"writeSend", redigo("Flush"), "Flush", false}, {"receiver", redigo("Receive"), "Receive", false},
-		{"exec", callee(x.fn["getSourceDbList"].Obj), "getSourceDbList", false},
-		{"getSourceDbList", redigo("Do"), "Do", true},
-	}
-	for _, s := range sites {
-		fn := x.fn[s.m]
-		calls := x.calls(fn.Decl.Body, s.pred)
-		if len(calls) == 0 {
-			x.c.Undecidedf("R6.error", s.m+"/"+s.name, fn.Decl.Pos(), "no %s call found in %s", s.name, s.m)
-		}
-		for _, call := range calls {
-			key := s.m + "/" + s.name
-			if _, cm, _ := cmd(x.info, call); cm != "" && s.name == "Do" {
-				key += ":" + cm
-			} else if s.name == "Do" {
-				key += ":pipeline"
-			}
-			c07.ErrCheck(x.c, x.g(s.m), x.info, fn.Decl.Body, call, c07.ErrSpec{Rule: "R6.error", Key: key, RetOK: s.retOK,
-				Consequence: "the failed " + s.name + " goes unnoticed: the page / batch / database it concerns is silently not copied while the run reports success"})
-		}
-	}
-	if sk := x.c.FuncOpt(pkgScanner, "NormalScanner", "ScanKey"); sk != nil {
-		info := sk.Pkg.TypesInfo
-		g := cfgq.Of(x.c.Program, sk)
-		for _, call := range core.Calls(sk.Decl.Body, info, func(call *ast.CallExpr, _ types.Object) bool {
-			_, cm, _ := cmd(info, call)
-			f := core.CalleeFunc(info, call)
-			return cm == "SCAN" || f != nil && f.Name() == "Scan" && strings.HasSuffix(f.Pkg().Path(), "redigo/redis")
-		}) {
-			c07.ErrCheck(x.c, g, info, sk.Decl.Body, call, c07.ErrSpec{Rule: "R6.error", Key: "NormalScanner.ScanKey/" + core.CalleeFunc(info, call).Name(), RetOK: true,
-				Consequence: "a failed SCAN is taken for an empty last page: the rest of the keyspace is silently not copied"})
-		}
-	}
-}
